@@ -5,7 +5,7 @@
 # Extraction uses the standard library's ExtrOcamlBasic and ExtrOcamlZBigInt (Z/positive/N -> zarith big integers;
 # directives listed in /usr/lib/ocaml/coq/theories/extraction/ExtrOcamlZBigInt.v); plus ONE Extract Constant of our own (Pos.ggcd -> zarith gcd, see below).
 set -e
-V=/verif
+V="$(cd "$(dirname "$0")/.." && pwd)"
 if [ $# -gt 0 ]; then MODS="$@"; OUT=$V/build/ocaml-$(echo "$@" | tr ' ' '-'); else
   MODS=$(ls $V/coq/theories/Exec/*_ops.v | sort | xargs -n1 basename | sed 's/_ops\.v$//'); OUT=$V/build/ocaml; fi
 mkdir -p $OUT
